@@ -80,6 +80,7 @@ Section Deliver.
   Hypothesis N4 : forall r p, e' = ECtsReply r T p StRolledBack -> kget s2 T p = RolledBack.
   Hypothesis N5 : forall r c ks x, e' = ECmReply r T c ks x -> In (ECmSend r T c ks) (s_sent b).
   Hypothesis N6 : forall r ks x, e' = EPwReply r T ks x -> exists p a o m f secs, In (EPwSend r T p ks a o m f secs) (s_sent b).
+  Hypothesis N7 : forall r p ttl m secs, e' = ECtsReply r T p (StLocked ttl m true secs) -> cn (getc b T) FTriedA <> 0.
 
   Ltac dnew H := rewrite (d_dlv _ _ _ _ D) in H; destruct H as [H | H].
 
@@ -109,6 +110,8 @@ Section Deliver.
     - eapply pwdlv_incl; [| apply (g_pwok _ _ G); auto]. rewrite (d_dlv _ _ _ _ D). apply incl_tl, incl_refl.
     - apply (g_told_dead _ _ G). auto.
     - apply (g_1pcts _ _ G). auto.
+    - dnew H; [eapply N7; eauto | eapply (g_async_cts _ _ G); eauto].
+    - eapply (g_jasync _ _ G); eauto.
   Qed.
 
   Hypothesis I : tinv b T.
@@ -176,6 +179,7 @@ Lemma deliver_inv : forall (b s2 : sys) (T : N) (e' : event),
   (forall r p, e' = ECtsReply r T p StRolledBack -> kget s2 T p = RolledBack) ->
   (forall r c ks x, e' = ECmReply r T c ks x -> In (ECmSend r T c ks) (s_sent b)) ->
   (forall r ks x, e' = EPwReply r T ks x -> exists p a o m f secs, In (EPwSend r T p ks a o m f secs) (s_sent b)) ->
+  (forall r p ttl m secs, e' = ECtsReply r T p (StLocked ttl m true secs) -> cn (getc b T) FTriedA <> 0) ->
   (tinv b T -> classic b T -> hasm b T ->
      (forall k c, kget s2 T k = Committed c -> kget b T k <> Committed c -> kget s2 T (cn (getc b T) FPrim) = Committed c) /\
      (forall c, kget s2 T (cn (getc b T) FPrim) = Committed c -> kget b T (cn (getc b T) FPrim) <> Committed c ->
@@ -186,7 +190,7 @@ Lemma deliver_inv : forall (b s2 : sys) (T : N) (e' : event),
      (forall k r ks m o, kget b T k = RolledBack -> e' = EPwReply r T ks (PwOk m o) -> ~ In k ks)) ->
   invT s2 T.
 Proof.
-  intros b s2 T e' D [G I] N1 N2 N3 N4 N5 N6 HT. split.
+  intros b s2 T e' D [G I] N1 N2 N3 N4 N5 N6 N7 HT. split.
   - apply (deliver_ginv b s2 T e' D G); auto.
   - intros Hh Hc. rewrite (dl_hasm _ _ _ _ D) in Hh. rewrite (dl_classic _ _ _ _ D) in Hc. specialize (I Hh Hc).
     destruct (HT I Hc Hh) as [T1 [T2 [T3 [T4 [T5 T6]]]]].
